@@ -56,14 +56,31 @@ func (r *Firewalla) refreshLocked() {
 	}
 }
 
+// refresh reloads the table when it has expired. It takes the write lock for
+// that, so it must be called without r.mu held.
+func (r *Firewalla) refresh() {
+	r.once.Do(r.init)
+	if !r.supported {
+		return
+	}
+	r.mu.RLock()
+	expired := !time.Now().Before(r.expires)
+	r.mu.RUnlock()
+	if expired {
+		r.mu.Lock()
+		r.refreshLocked()
+		r.mu.Unlock()
+	}
+}
+
 func (r *Firewalla) Name() string {
 	return "firewalla"
 }
 
 func (r *Firewalla) Visit(f func(name string, macs []string)) {
+	r.refresh()
 	r.mu.RLock()
 	defer r.mu.RUnlock()
-	r.refreshLocked()
 	m := map[string][]string{}
 	for mac, names := range r.macs {
 		for _, name := range names {
@@ -76,9 +93,9 @@ func (r *Firewalla) Visit(f func(name string, macs []string)) {
 }
 
 func (r *Firewalla) LookupMAC(mac string) []string {
+	r.refresh()
 	r.mu.RLock()
 	defer r.mu.RUnlock()
-	r.refreshLocked()
 	return r.macs[mac]
 }
 
